@@ -236,6 +236,16 @@ def client_poll_probe(ctx, index):
   servicer.GetOperation = counting_get
   old = vizier_client.environment_variables.new_suggestion_polling_secs
   vizier_client.environment_variables.new_suggestion_polling_secs = 0.0
+  # logical polls, not wall clock: the client's back-off sleeps (>= 0.3 s each) are skipped
+  real_time = vizier_client.time
+
+  class _NoSleep:
+    def __getattr__(self, name):
+      return getattr(real_time, name)
+
+    def sleep(self, secs):
+      del secs
+  vizier_client.time = _NoSleep()
   exc = rng.choice(EXC)
   case = {'probe': 'client-poll', 'exc': exc, 'index': index}
   try:
@@ -263,6 +273,7 @@ def client_poll_probe(ctx, index):
     ctx.case(['client-poll', exc, first], True)
   finally:
     vizier_client.environment_variables.new_suggestion_polling_secs = old
+    vizier_client.time = real_time
 
 
 def run_shard(ctx):
